@@ -30,3 +30,19 @@ impl std::ops::Sub<Instant> for Instant {
         Duration::ZERO
     }
 }
+
+impl Instant {
+    pub fn saturating_duration_since(&self, _earlier: Instant) -> Duration {
+        Duration::ZERO
+    }
+    pub fn checked_duration_since(&self, _earlier: Instant) -> Option<Duration> {
+        Some(Duration::ZERO)
+    }
+}
+
+impl std::ops::Add<Duration> for Instant {
+    type Output = Instant;
+    fn add(self, _rhs: Duration) -> Instant {
+        self
+    }
+}
